@@ -295,7 +295,8 @@ def run_check(prop, mod, tier, level, explanation, assumptions, trusted_base, x8
           'known_findings_reported': [kf['what'] for _, (kf, rs) in knowns.items()],
           'analysis_broken': brokenmsgs, 'build_s': round(t_build, 2), 'repo': B.REPO}
     os.makedirs(os.path.join(VERIF, 'evidence'), exist_ok=True)
-    with open(os.path.join(VERIF, 'evidence', prop + '.json'), 'w') as f:
+    evname = prop + ('.partial.json' if os.environ.get('VERIF_PARTIAL') == '1' else '.json')
+    with open(os.path.join(VERIF, 'evidence', evname), 'w') as f:
         json.dump(ev, f, indent=1, default=str)
     print('%s tier=%s: %d obligations: %d proved, %d undecided, %d refuted (%d known, %d new); %d kernels (%d not instantiable); canaries %d; %.1fs (build %.1fs)'
           % (prop, tier, total, proved, undec, refuted, refuted - len(violations), len(violations), stats['kernels'], len(failures), canary_ok, time.time() - t0, t_build))
